@@ -442,6 +442,11 @@ detector at distance `rd` from the rotation centre) sees the point with coordina
 along the central ray (towards the detector) and `xt` along the detector axis. -/
 def fanDetCoord [Div K] (rs rd xc xt : K) : K := (rs + rd) * xt / (rs + xc)
 
+/-- Detector coordinate at which a 2d parallel-beam geometry sees the point `x`: the
+component of `x - det_refpoint` along the rotated detector axis. -/
+def Par2.detCoord (g : Par2 K) (R : M2 K) (x : V2 K) : K :=
+  V2.dot (V2.sub x (g.refpoint R)) (g.detAxis R)
+
 /-- `cone_beam_geometry` (3d): half of `h = 2·sin(arctan(zmax/dist))·(rs + rd)` before it is
 rounded up to a multiple of the pixel size; `hyp = √(dist² + zmax²)`, `dist = rs - rho`. -/
 def coneHalfHeightRaw [Div K] (zmax hyp rs rd : K) : K := zmax / hyp * (rs + rd)
